@@ -410,7 +410,6 @@ func main() {
 	})
 }
 
-
 func lastLines(s string, n int) string {
 	l := strings.Split(strings.TrimRight(s, "\n"), "\n")
 	if len(l) > n {
